@@ -232,3 +232,18 @@ func vs_mem(xs []string, s string) bool {
 func vs_memEnum(xs []interface{}, s string) bool {
 	return vs_any(func(j int) bool { return 0 <= j && j < len(xs) && vs_enumStr(xs[j]) == s })
 }
+
+// vs_paramAt: among the first n parameters of ps there is one at location loc named name.
+func vs_paramAt(ps []spec.Parameter, n int, loc, name string) bool {
+	return vs_any(func(i int) bool { return 0 <= i && i < n && i < len(ps) && ps[i].In == loc && ps[i].Name == name })
+}
+
+// vs_paramBetween: a parameter at loc named name occurs at an index in (j, n).
+func vs_paramBetween(ps []spec.Parameter, j, n int, loc, name string) bool {
+	return vs_any(func(i int) bool { return j < i && i < n && i < len(ps) && ps[i].In == loc && ps[i].Name == name })
+}
+
+// vs_paramAfter: a later parameter of ps has the same location and name (it then wins).
+func vs_paramAfter(ps []spec.Parameter, j int, loc, name string) bool {
+	return vs_paramBetween(ps, j, len(ps), loc, name)
+}
